@@ -131,6 +131,13 @@ static void COVER_map_clear(COVER_map_t *map) {
  * The map is only guaranteed to be large enough to hold size elements.
  */
 static int COVER_map_init(COVER_map_t *map, U32 size) {
+  if (size >= ((U32)1 << 30)) {
+    /* a table of 4x this size does not fit the 32-bit fields of the map */
+    map->data = NULL;
+    map->sizeLog = 0;
+    map->size = 0;
+    return 0;
+  }
   map->sizeLog = ZSTD_highbit32(size) + 2;
   map->size = (U32)1 << map->sizeLog;
   map->sizeMask = map->size - 1;
